@@ -591,6 +591,22 @@ func (rc *repoCase) emit(s *stream.Stream, mode string, threads int) error {
 			}
 			seen[p] = true
 			oc, hasOld := rc.oldTree[p]
+			if !hasOld && mode == "2" {
+				// go-git's rename detection can consume an added path without listing it: an EXACT rename
+				// (identical blob) whose source shares its hash with another file of the old revision comes
+				// out as the deletion of the source alone (seen with byte-identical twin files). git itself
+				// reports R100. The rename source is then the old revision of the file; the harness only
+				// proposes it when the bytes are identical, the predicate is evaluated by the Lean judge.
+				for _, d := range diffs {
+					if d.hasFrom && !d.hasTo {
+						if c, ok := rc.oldTree[d.from]; ok && c == rc.newTree[p] {
+							oc, hasOld = c, true
+							s.Count("file:exact-rename-not-listed-by-go-git")
+							break
+						}
+					}
+				}
+			}
 			jm := mode
 			if !diffEligible(p) {
 				jm = "X"
